@@ -231,7 +231,9 @@ def deadlock_query(programs, steps=None):
 
 
 def stress(rb, exprs, threads=8, millis=3000):
-    _, out, _ = replay_call(rb, ["stress_feel", str(millis), str(threads)] + list(exprs), timeout=120)
+    # "alone" = in a process of its own: a process-wide cache filled by another expression must show up as a difference
+    want = [replay_call(rb, ["feel", e], timeout=60)[1] for e in exprs]
+    _, out, _ = replay_call(rb, ["stress_feel", str(millis), str(threads)] + list(exprs) + ["--want"] + want, timeout=120)
     return out
 
 
@@ -337,7 +339,19 @@ def run(check, mirror, tier):
             st.aux[key] = cid
             st.aux["shared_cells"] = tuple(st.aux.get("shared_cells", ())) + (cid,)
         yield st, Ref(st.aux[key])
+    def m_fresh_str(ex, st, callee, args, dest_ty):
+        yield st, StrV(None, id=z3.Int(ex.fresh_name("text")))
+
+    def m_regex_split(ex, st, callee, args, dest_ty):
+        n = ex.fresh_int(st, "usize", "pieces", constrain=False)
+        ex.assume(st, z3.And(n.e >= 0, n.e <= 2))
+        items = [StrV(None, id=z3.Int(ex.fresh_name("piece"))) for _ in range(2)]
+        yield st, Opaque("SliceIter", "owned", (Ref(ex.new_cell(st, VecV(n.e, items, "str"), "pieces")), 0))
     RX_MODELS = [(R(r"^(regex::)?Regex::new$"), m_regex_new), (R(r"^(regex::)?Regex::is_match$"), m_is_match),
+                 (R(r"^(regex::)?Regex::replace(_all|n)?::<.*>$"), m_fresh_str), (R(r"^<(std::borrow::)?Cow<'_, str> as (ToString>::to_string|Deref>::deref)$"), lambda ex, st, c, a, d: iter([(st, a[0] if not isinstance(a[0], Ref) else deref(ex, st, a[0]))])),
+                 (R(r"^core::str::<impl str>::trim(_start|_end)?$"), lambda ex, st, c, a, d: iter([(st, a[0])])),
+                 (R(r"^(regex::)?Regex::split(n)?$"), m_regex_split),
+                 (R(r"^<(regex::)?Split(N)?<.*> as Iterator>::(map|filter|filter_map)::<.*>$"), fv.m_lazy_adapt),
                  (R(r"^format$|^std::fmt::format$|^alloc::fmt::format$"), m_format_stub),
                  (R(r"^<(?:[\w:]+::)?[A-Z][A-Z0-9_]+ as Deref>::deref$"), m_any_lazy),
                  (R(r"^(std::sync::)?(RwLock|Mutex)::<.*>::(read|write|lock|try_read|try_write|try_lock)$"), m_static_lock),
@@ -349,7 +363,7 @@ def run(check, mirror, tier):
         def setup(ex, st):
             args = []
             for k in range(nargs):
-                isstr = flags_string if k == 2 else True
+                isstr = flags_string if k == (3 if fname == "replace" else 2) else True
                 v = En("Value", z3.IntVal(U.idx("String" if isstr else "Null")), {"String": (StrV(None, id=z3.Int(ex.fresh_name("s%d" % k))),), "Null": (none(),)})
                 args.append(Ref(ex.new_cell(st, v, "arg")))
             return fname, args, {"function": fname}
@@ -370,6 +384,9 @@ def run(check, mirror, tier):
            'split("a;b;c", ";")', 'split("a1b2c", "[0-9]")', 'matches("x1", "^x[0-9]$")']
     regex_job("matches", 3, True, RXW)
     regex_job("matches", 3, False, RXW)
+    RXW2 = ['replace("a.b", ".", "-", "q")', 'replace("a.b", ".", "-")', 'replace("a.b", "b", "-", "i")', 'replace("x-y", "-", "+")', 'split("a.b.c", "[.]")', 'split("a.b.c", "b")']
+    regex_job("replace", 4, False, RXW2)
+    regex_job("split", 2, True, RXW2)
     run_parallel(check, jobs)
 
     # ---------------------------------------------------------------- B + C: the decision evaluation closure and the schedule query
